@@ -1,6 +1,8 @@
 (* C04 — the region hierarchy is self-consistent. *)
 From Coq Require Import ZArith List.
 From V Require Import Valid.Hier Valid.FlatRegion Valid.Wf Valid.Run.
+From Coq Require Import Lia.
+From V Require Import Model.Pipe Model.PipeBounded Model.PipeBounded4.
 
 Theorem C04_checker_sound : forall h, wf_check h = true -> WfHier h.
 Proof. exact wf_check_sound. Qed.
@@ -12,3 +14,18 @@ Proof.
   intros rows g h Hd. destruct (run_instance_sound rows g h Hd) as [_ [_ [A _]]]. exact A.
 Qed.
 Print Assumptions C04_driver_column.
+
+(* bounded form over the MODEL of the whole pipeline (nesting as the graphs hold it; the
+   implementation's parent pointers are not part of the model) *)
+Theorem C04_pipeline_model_le4 :
+  forall n g, (n <= 4)%nat -> In g (closed_graphs n) ->
+    exists s0 s1 s2,
+      p_stage nmU 0 (init_state g) topU = POk s0 /\ p_stage nmU 1 s0 topU = POk s1 /\
+      p_stage nmU 2 s1 topU = POk s2 /\
+      WfHier (to_hier s0 topU) /\ WfHier (to_hier s1 topU) /\ WfHier (to_hier s2 topU).
+Proof.
+  intros n g Hn Hin. destruct (pipeline_good_le4 n g Hn Hin) as [s0 [s1 [s2 [A0 [B0 [A1 [B1 [A2 B2]]]]]]]].
+  exists s0, s1, s2. split; [exact A0|]. split; [exact A1|]. split; [exact A2|].
+  split; [apply B0|]. split; [apply B1|apply B2].
+Qed.
+Print Assumptions C04_pipeline_model_le4.
